@@ -2,8 +2,11 @@
 # Pointwise: weight and loop momenta of the implementation vs the theorem-backed model (whole pipeline).
 # Aggregate: for graphs with closed forms the mean of jacobian over the hypercube vs the closed form.
 from common import *
-import graphs as G, samplecorr as SC
+import graphs as G, samplecorr as SC, exact as X
+from fractions import Fraction as Fr
 import mpmath
+import importlib
+c10 = importlib.import_module("props.c10")
 
 
 def closed_form_cases(rng, tier):
@@ -45,11 +48,37 @@ def run(rep, rng, tier, replay=None):
                           nontrivial=lambda c: c["L"] >= 2 or any(ed["mass"] is not None for ed in c["edge_data"]) or c["D"] != 3,
                           extra_cases=extra, emax=7 if tier == "quick" else 8)
     broke = any(v["kind"] == "correspondence" for v in rep.violations)
+    n_exact = n_energy = 0
+    mpmath.mp.dps = 30
     for c, fi, m, o, timpl in got:
         # pointwise search: a weight that differs from the theorem-backed model weight is a failing input
         if not rel_close(b2f(fi["jacobian"]), b2f(m["jacobian"]), 1e-9) and math.isfinite(b2f(m["jacobian"])):
             rep.violation("property", "sample weight %r differs from the model weight %r (weight x proposal density is no longer the Feynman integrand)" % (
                 b2f(fi["jacobian"]), b2f(m["jacobian"])), case=c, failing_input=True, what="pointwise weight differs from the model")
+        # independent of the model: weight = normalisation x U(x)^(-D/2) x V(x)^(-dod) with the EXACT Symanzik polynomials at the returned parameters
+        nn = SC.case_numbers(c)
+        xf = SC.floats(fi["x"])
+        if all(math.isfinite(t) and t > 0 for t in xf):
+            x = [Fr(t) for t in xf]
+            Vx, ratio, Lm, _, _ = X.v_poly(x, nn["sig"], [[Fr(t) for t in sh] for sh in nn["shifts"]], [Fr(mm) for mm in nn["masses"]])
+            Ux, kap = X.det(Lm), X.cond_estimate(Lm)
+            if ratio is not None and kap is not None and ratio * kap <= Fr(10) ** 7 and Vx > 0 and Ux > 0:
+                D, dod, fac = c["D"], b2f(timpl["dod"]), b2f(timpl["factor_bits"])
+                ex = mpmath.mpf(fac) * (mpmath.mpf(Ux.numerator) / Ux.denominator) ** (-mpmath.mpf(D) / 2) * (mpmath.mpf(Vx.numerator) / Vx.denominator) ** (-mpmath.mpf(dod))
+                n_exact += 1
+                if not rel_close(b2f(fi["jacobian"]), float(ex), 1e-10 * float(ratio * kap) * (4 + D + abs(dod))):
+                    rep.violation("property", "sample weight %r, but normalisation x U^(-D/2) x V^(-dod) with the exact Symanzik polynomials at the returned Feynman parameters = %r "
+                                  "(V = sum x(m^2+p^2) - u^T L^-1 u in rationals)" % (b2f(fi["jacobian"]), float(ex)), case=c, failing_input=True,
+                                  what="weight is not the Feynman integrand over the proposal density")
+        # the Gaussian part of the proposal density: at the returned loop momenta the exponent sum_e x_e(|q_e|^2+m_e^2) must equal
+        # v (1 + |q|^2/(2 lambda))  (T1; exact rationals on the implementation's outputs) -- otherwise g(k) is averaged against another density
+        if "shift" in fi and fi.get("loop_momenta") is not None:
+            res = c10.energy_and_shift(c, fi)
+            if res is not None:
+                n_energy += 1
+                if res[0]:
+                    rep.violation("property", "the returned loop momenta are not distributed with the density the weight compensates: " + "; ".join(res[0][:2]),
+                                  case=c, failing_input=True, what="energy identity fails: weight x density is not the integrand")
         rep.sample(dict(graph=c["family"], L=c["L"], D=c["D"], jacobian=b2f(fi["jacobian"])))
     # aggregate: closed forms
     cf = closed_form_cases(rng, tier)
@@ -74,8 +103,11 @@ def run(rep, rng, tier, replay=None):
         if o["errors"]:
             rep.violation("property", "%d of %d samples of an accepted massive graph returned an error" % (o["errors"], n), case=c, failing_input=True)
     rep.cov["aggregate"] = agg
+    rep.cov["weights_checked_against_exact_symanzik_polynomials"] = n_exact
+    rep.cov["loop_momenta_checked_against_exact_energy_identity"] = n_energy
     rep.cov["rule"] = ("pointwise: accepted connected graphs (all families, masses, shifts, 1..4 loops, D=1..6, random cycle bases); weight, loop momenta and every intermediate of the "
-                       "implementation vs the Coq model of the whole pipeline (1e-9); aggregate: massive tadpoles (4 parameter sets), equal-mass bubbles at zero momentum, products "
+                       "implementation vs the Coq model of the whole pipeline (1e-9), and the weight vs normalisation x U^(-D/2) V^(-dod) with U, V exact rationals at the returned parameters "
+                       "(tolerance 1e-10 x exact kappa x cancellation; beyond 1e7 skipped); aggregate: massive tadpoles (4 parameter sets), equal-mass bubbles at zero momentum, products "
                        "of tadpoles - mean of jacobian over %s pseudo-random points vs the closed form pi^(D/2) Gamma(nu-D/2)/Gamma(nu) m^(D-2nu) (alarm only beyond 8 sigma and 1%%). "
                        "non-trivial = L>=2 or a massive edge or D != 3" % ("4e4" if tier == "quick" else "4e5"))
     rep.assumptions.append("the integral identity itself (Schwinger parametrisation, change of variables, laws of inverse-CDF and Box-Muller) is not formalised: no measure theory is installed")
